@@ -94,11 +94,16 @@ class CollationManager(context_class_base):
         elif not isinstance(collation, str):
             msg = f'collation must be a string, not {type(collation)!r}'
             raise xpath_error('XPTY0004', msg, self.token)
-        elif not urlsplit(collation).scheme and token is not None:
-            # Collation is a relative URI: try to complete with the static base URI
-            base_uri = token.parser.base_uri
-            if base_uri:
-                collation = urljoin(base_uri, collation)
+
+        try:
+            if not urlsplit(collation).scheme and token is not None:
+                # Collation is a relative URI: try to complete with the static base URI
+                base_uri = token.parser.base_uri
+                if base_uri:
+                    collation = urljoin(base_uri, collation)
+        except ValueError:
+            msg = f'{collation!r} is not a valid collation URI'
+            raise xpath_error('FOCH0002', msg, self.token) from None
 
         if collation == UNICODE_CODEPOINT_COLLATION:
             self.lc_collate = None
